@@ -254,6 +254,12 @@ func runC03Case(e *Env, lp *vk.ListenerPool, c xferCase) xferOutcome {
 			return out
 		}
 		out.Diff = vk.DiffDigest(vk.ExpectedDigest(tree, res.Prefix), got)
+	} else if got, err := vk.Digest(outDir); err == nil {
+		// what the output directory lacked when the transfer stopped (evidence only)
+		out.StateAtStop = vk.DiffDigest(vk.ExpectedDigest(tree, res.Prefix), got)
+		if len(out.StateAtStop) > 12 {
+			out.StateAtStop = append(out.StateAtStop[:12], fmt.Sprintf("... %d more", len(out.StateAtStop)-12))
+		}
 	}
 	return out
 }
@@ -322,7 +328,7 @@ func runC03(e *Env) {
 			}
 		}
 		what := fmt.Sprintf("fault-free transfer did not complete: send_err=%q recv_err=%q hung=%v diff=%v", errS(o.Res.SendErr), errS(o.Res.RecvErr), o.Res.Hung, o.Diff)
-		e.R.Violate(c03Key(c, o), what, c, map[string]any{"tree": o.Tree, "result": o.Res.Summary(), "goroutines": o.Res.HangDump})
+		e.R.Violate(c03Key(c, o), what, c, map[string]any{"tree": o.Tree, "result": o.Res.Summary(), "goroutines": o.Res.HangDump, "output_state_when_stopped": o.StateAtStop})
 	})
 	e.R.SetExtra("hangs", hangs)
 	e.R.SetExtra("hook_hits", verifhook.AllHits())
